@@ -1,20 +1,41 @@
 ---------------------------- MODULE Gen_FailMsg ----------------------------
 (* Table generation for C14 (message part): one initial state per operand pair of the lattice and failure kind the
    pair is legal for; each is printed as a one-call behaviour.  Only the inputs are printed; what the message must say
-   is decided by Trace_FailMsg with FailMsg's operators when the recorded messages are validated. *)
+   is decided by Trace_FailMsg with FailMsg's operators when the recorded messages are validated.
+   Initial states of GSpec:
+   - the lattice of short operands with every content (rows [kind, e, a], operands as symbol sequences)
+   - the length grid: for every sum S = 0..MaxSum of the two operand lengths the splits (n, S - n) with n = 0, S, S/2 and
+            every n congruent to S modulo Grid, for every kind - so the text of every kind takes every length from its fixed
+            part up to that plus MaxSum, with both operands long, one long, one empty (rows [kind, er, ar], operands as runs) *)
 EXTENDS FailMsg, Json
-CONSTANT Kinds
+CONSTANTS Kinds,
+          MaxSum, Grid      \* the length grid
 VARIABLES row
 Rows == { r \in [kind : Kinds \ {"bitseq"}, e : Strs, a : Strs] :
              /\ r.kind = "streq" => r.e # r.a
              /\ r.kind = "nocase" => LowerAll(r.e) # LowerAll(r.a)
-             /\ r.kind = "bineq" => Len(r.e) = Len(r.a) /\ r.e # r.a }
+             /\ r.kind = "bineq" => Len(r.e) = Len(r.a) /\ r.e # r.a
+             /\ r.kind \in Rendered => AllPrintable(r.e) /\ AllPrintable(r.a)
+             /\ r.kind = "contains" => ~HasSub(r.a, r.e)
+             /\ r.kind \in OneOperand => r.a = <<>> }
 \* bits-equal kind: every width, operand pairs and masks of the byte lattice for which the check fails (the operands differ
 \* under the mask somewhere in the 64 bits - possibly only above the operand width, then the two fields coincide)
 BitRows == IF "bitseq" \in Kinds
            THEN { r \in [kind : {"bitseq"}, w : Widths, e : Vals, a : AVals, m : Masks] : And8(r.e, r.m) # And8(r.a, r.m) }
            ELSE {}
-GInit == row \in (Rows \cup BitRows) /\ u = 0
+
+\* ---- the length grid.  Operands are runs of one symbol (x for expected, y for actual; the last byte of a block differs)
+Run(c, n) == IF n = 0 THEN <<>> ELSE <<<<c, n>>>>
+SplitsOf(S) == {0, S, S \div 2} \cup { n \in 0..S : n % Grid = S % Grid }
+LenRowsOf(k) ==
+    IF k \in OneOperand THEN { [kind |-> k, er |-> Run(8, n), ar |-> <<>>] : n \in 0..MaxSum }
+    ELSE IF k = "bineq" THEN { [kind |-> k, er |-> Run(8, n), ar |-> Run(8, n - 1) \o Run(9, 1)] : n \in 1..(MaxSum \div 2) }
+    ELSE UNION { { [kind |-> k, er |-> Run(8, n), ar |-> Run(9, S - n)] :
+                     n \in { m \in SplitsOf(S) : k = "contains" => m > 0 } } :            \* the empty text is contained in every text
+                 S \in { T \in 0..MaxSum : k \in {"streq", "nocase"} => T > 0 } }         \* the operands differ
+GInit == /\ u = 0
+         /\ \/ row \in (Rows \cup BitRows)
+            \/ \E k \in Kinds \ {"bitseq"} : row \in LenRowsOf(k)
 GSpec == GInit /\ [][UNCHANGED <<row, u>>]_<<row, u>>
 Dump == PrintT(<<"BEH", ToJson(row)>>)
 =============================================================================
